@@ -603,6 +603,74 @@ pub fn static_rows(o: &mut Outcome) {
 }
 
 /// The 65 536th value.
+/// A vector column takes exactly `dimensions` elements: every other length is a mismatch - also lengths
+/// that agree with the dimension in their low 16 bits - and leaves the bound values as they were.
+pub fn vector_lengths(o: &mut Outcome) {
+    let rp = json!({"kind": "vector_lengths"});
+    for dim in [1u16, 2, 3, 16, 255] {
+        let ty = column_type(&Ty::Vector(Box::new(n(Nat::Float)), dim));
+        let tyi = column_type(&Ty::Vector(Box::new(n(Nat::Int)), dim));
+        let d = dim as usize;
+        let mut lens: Vec<usize> = vec![0, d - 1, d, d + 1, d + 65536, d + 131072, 65536, 65535];
+        lens.sort_unstable();
+        lens.dedup();
+        for len in lens {
+            let mut sv = SerializedValues::new();
+            let _ = sv.add_value(&7i32, &column_type(&n(Nat::Int)));
+            let before = match snap::take(&sv) {
+                Ok(s) => s,
+                Err(e) => {
+                    o.violation("vector:prefix-inconsistent", e, rp.clone());
+                    return;
+                }
+            };
+            let vf: Vec<f32> = (0..len).map(|i| i as f32).collect();
+            let vi: Vec<i32> = (0..len).map(|i| i as i32).collect();
+            let vc = CqlValue::Vector((0..len).map(|i| CqlValue::Float(i as f32)).collect());
+            let attempts: Vec<(&str, Result<(), String>)> = vec![
+                ("Vec<f32>", sv.add_value(&vf, &ty).map_err(|e| e.to_string())),
+            ];
+            let mut results = attempts;
+            // (each attempt on its own copy of the prefix, so that an accepted one does not shift the others)
+            for (name, r) in [("Vec<i32>", {
+                let mut s2 = SerializedValues::new();
+                let _ = s2.add_value(&7i32, &column_type(&n(Nat::Int)));
+                let r = s2.add_value(&vi, &tyi).map_err(|e| e.to_string());
+                if r.is_err() {
+                    if let Ok(after) = snap::take(&s2) {
+                        if after != before {
+                            o.violation("vector:failed-bind-changed-the-request", format!("after refusing a Vec<i32> of {len} elements for vector<int, {dim}> the bound values differ from before"), rp.clone());
+                        }
+                    }
+                }
+                r
+            }), ("CqlValue::Vector", {
+                let mut s3 = SerializedValues::new();
+                let _ = s3.add_value(&7i32, &column_type(&n(Nat::Int)));
+                s3.add_value(&vc, &ty).map_err(|e| e.to_string())
+            })] {
+                results.push((name, r));
+            }
+            for (name, r) in results {
+                o.evals(1);
+                match (len == d, r) {
+                    (true, Ok(())) => o.class("vector:exact-length-accepted"),
+                    (false, Err(_)) => o.class(if len % 65536 == d % 65536 { "vector:length-congruent-mod-65536-refused" } else { "vector:wrong-length-refused" }),
+                    (true, Err(e)) => o.violation("vector:exact-length-refused", format!("{name} of {len} elements for a vector of dimension {dim} was refused: {e}"), rp.clone()),
+                    (false, Ok(())) => o.violation("vector:wrong-length-accepted", format!("{name} of {len} elements was accepted for a vector of dimension {dim}"), rp.clone()),
+                }
+            }
+            // the first attempt ran on `sv`: a refusal must have left it untouched
+            if len != d {
+                match snap::take(&sv) {
+                    Ok(after) if after == before => {}
+                    _ => o.violation("vector:failed-bind-changed-the-request", format!("after refusing a Vec<f32> of {len} elements for vector<float, {dim}> the bound values differ from before"), rp.clone()),
+                }
+            }
+        }
+    }
+}
+
 pub fn too_many(o: &mut Outcome, rng: &mut Rng) {
     let rp = json!({"kind": "too_many"});
     let int = column_type(&n(Nat::Int));
